@@ -89,6 +89,39 @@ func (g *ccGates) gate(id int) {
 	<-g.release[id]
 }
 
+var ccFiles = map[string]string{"fa": strings.Repeat("A", 100), "fb": strings.Repeat("B", 200), "fc": strings.Repeat("C", 300)}
+var ccDir string
+var ccETags = map[string]string{}
+
+// ccStaticDir creates the served directory once and learns the ETag of every file from an application that serves them
+// one after the other (the serial answer).
+func ccStaticDir() string {
+	if ccDir != "" {
+		return ccDir
+	}
+	d, err := os.MkdirTemp("", "verif-conc-static-")
+	if err != nil {
+		panic(err)
+	}
+	for n, body := range ccFiles {
+		if err := os.WriteFile(d+"/"+n, []byte(body), 0o644); err != nil {
+			panic(err)
+		}
+	}
+	ccDir = d
+	f := flamego.NewWithLogger(io.Discard)
+	f.Use(flamego.Static(flamego.StaticOptions{Directory: d, Prefix: "st", SetETag: true}))
+	for _, n := range []string{"fa", "fb", "fc"} {
+		w := httptest.NewRecorder()
+		r, _ := http.NewRequest("GET", "/st/"+n, nil)
+		f.ServeHTTP(w, r)
+		ccETags[n] = w.Header().Get("ETag")
+	}
+	return d
+}
+
+func ccFile(rq ccReq) string { return []string{"fa", "fb", "fc"}[rq.ID%3] }
+
 func ccFlame(g *ccGates) *flamego.Flame {
 	f := flamego.NewWithLogger(io.Discard)
 	idOf := func(r *http.Request) int { n, _ := strconv.Atoi(r.Header.Get("X-Req-Id")); return n }
@@ -107,6 +140,8 @@ func ccFlame(g *ccGates) *flamego.Flame {
 	f.Use(flamego.Logger())
 	f.Use(flamego.Recovery()) // development environment: the answer to a panic carries the formatted stack with source lines
 	f.Use(flamego.Renderer())
+	// static files with ETags: requests for different files are in flight at the same time
+	f.Use(flamego.Static(flamego.StaticOptions{Directory: ccStaticDir(), Prefix: "st", SetETag: true}))
 	// two more middleware, added one by one: the middleware slice then has spare capacity (len 3, cap 4),
 	// which is what makes an append to it by one request visible to another
 	f.Use(func(c flamego.Context) {})
@@ -205,7 +240,7 @@ func m0(rq ccReq) string { return fmt.Sprintf("boom-%s-%d-", rq.Val, rq.ID) }
 
 func ccRequest(rq ccReq) *http.Request {
 	path := map[string]string{"static": "/s", "param": "/p/" + rq.Val, "opt": "/o/" + rq.Val, "regex": "/r/" + rq.Val,
-		"all": "/a/" + rq.Val, "hdr": "/h", "render": "/rd/" + rq.Val, "panic": "/pn/" + rq.Val, "lone": "/lone/" + rq.Val, "deep": "/deep/er/" + rq.Val, "ret": "/ret/" + rq.Val, "body": "/bd", "unk": "/s"}[rq.Route]
+		"all": "/a/" + rq.Val, "hdr": "/h", "render": "/rd/" + rq.Val, "panic": "/pn/" + rq.Val, "lone": "/lone/" + rq.Val, "deep": "/deep/er/" + rq.Val, "ret": "/ret/" + rq.Val, "body": "/bd", "unk": "/s", "file": "/st/" + ccFile(rq)}[rq.Route]
 	method := "GET"
 	if rq.Route == "unk" {
 		method = []string{"PROPFIND", "PURGE", "LINK", "get"}[rq.ID%4]
@@ -289,6 +324,16 @@ func ccReplay(raw json.RawMessage, idx int, tr *traceWriter) {
 					}
 				}
 			}
+			if rq.Route == "file" {
+				// answered by Static: the content and the ETag of the file asked for (its serial answer), or something else
+				n := ccFile(rq)
+				if w.Code == 200 && w.Body.String() == ccFiles[n] && w.Header().Get("ETag") == ccETags[n] && ccETags[n] != "" {
+					results[i].out = ccOut{H: "file", Tag: rq.ID, URL: "/p/" + rq.Val, Wid: rq.ID, Scr: rq.ID}
+				} else {
+					results[i].out = ccOut{H: "?file " + strconv.Itoa(w.Code) + " " + w.Header().Get("ETag")}
+				}
+				return
+			}
 			if wid, err := strconv.Atoi(w.Header().Get("X-Wid")); err != nil || wid != results[i].out.Wid {
 				results[i].out.Wid = -1 // the header written through the handler's writer landed elsewhere
 			}
@@ -339,7 +384,7 @@ func ccReplay(raw json.RawMessage, idx int, tr *traceWriter) {
 
 func ccGen(seed int64, n int, args []string, out *json.Encoder) {
 	rng := rand.New(rand.NewSource(seed))
-	kinds := []string{"static", "param", "opt", "regex", "all", "hdr", "render", "render", "panic", "panic", "lone", "lone", "lone", "deep", "deep", "ret", "ret", "ret", "body", "body", "body", "unk", "unk", "unk"}
+	kinds := []string{"static", "param", "opt", "regex", "all", "hdr", "render", "render", "panic", "panic", "lone", "lone", "lone", "deep", "deep", "ret", "ret", "ret", "body", "body", "body", "unk", "unk", "unk", "file", "file", "file", "file"}
 	if len(args) > 0 && args[0] == "panic" {
 		// rounds in which most requests panic at the same time (through the one Recovery instance of the round)
 		kinds = []string{"panic", "panic", "panic", "panic", "panic", "panic", "static", "param", "ret"}
@@ -354,4 +399,10 @@ func ccGen(seed int64, n int, args []string, out *json.Encoder) {
 	}
 }
 
-func init() { modules["conc"] = &module{gen: ccGen, replay: ccReplay} }
+func ccFinish() {
+	if ccDir != "" {
+		_ = os.RemoveAll(ccDir)
+	}
+}
+
+func init() { modules["conc"] = &module{gen: ccGen, replay: ccReplay, finish: ccFinish} }
